@@ -47,6 +47,17 @@ theorem roots_agree :
     Generated.vacuumMarksStats = true ∧ Generated.vacuumMarksI2e = true ∧
     Generated.vacuumMarksCatalog = true ∧ Generated.vacuumMarksSegments = true := by decide
 
+/-- the comparison operators of the two WAL scans, regenerated from vacuum.rs and engine.rs, are the same
+    (`>=` for a ManifestSwitch, `==` for a Checkpoint, initial epoch 0) -/
+theorem scan_ops_agree : ScanOps.vacuumReal = ScanOps.engineReal := by decide
+
+/-- **wal_roots_agree**: for EVERY log (any list of committed transactions, any epochs, any order)
+    vacuum's `scan_wal_roots` selects the segment list, property root and statistics root that the
+    engine's `scan_recovery_state` selects when the database is opened -/
+theorem wal_roots_agree (log : List Tx) :
+    (vacuumScan ScanOps.vacuumReal log).roots = (engineScan ScanOps.engineReal log).roots := by
+  rw [scan_ops_agree]; exact scan_agree _ log
+
 /-- **inclusion obligation**: on every database whose meta pages hold at most the lists csr.rs writes,
     every (page, role) a reader can reach is reached by vacuum's traversal -/
 theorem C28_inclusion (d : Db)
@@ -73,6 +84,16 @@ theorem C28_partial (d : Db) (τ : Nat → Role) (wf : WellFormed Layout.real d 
     apply vacuum_preserves
     intro n hn
     exact mark_complete Layout.real d τ wf.1 fuel keep hm n (C28_inclusion d wf.2 n hn)
+
+/-- **C28 (partial, with the WAL)**: the page file `d` is vacuumed with the roots VACUUM finds in the
+    log and read with the roots the ENGINE finds in the log; for every log and every well-formed file,
+    when the mark phase returns Ok the reader's view is unchanged -/
+theorem C28_partial_log (d : Db) (log : List Tx) (τ : Nat → Role)
+    (wf : WellFormed Layout.real (d.withRoots (engineScan ScanOps.engineReal log).roots) τ) (fuel : Nat) (d' : Db)
+    (h : vacuum Layout.real (d.withRoots (vacuumScan ScanOps.vacuumReal log).roots) fuel = .ok d') :
+    SameView Layout.real (d.withRoots (engineScan ScanOps.engineReal log).roots) d' := by
+  rw [wal_roots_agree log] at h
+  exact C28_partial _ τ wf fuel d' h
 
 /-! ### non-vacuity: a database with every kind of structure -/
 
@@ -110,5 +131,20 @@ theorem C28_counterexample_forgot_reverse_lists :
     (okOf (mark { Layout.real with csrLists := 2 } exampleDb 100)).map (fun l => (l.contains 9, l.contains 10)) =
       some (false, false) ∧
     (reachR Layout.real exampleDb 100).contains (10, Role.csrData) = true := by decide +kernel
+
+/-- a scan that accepts a ManifestSwitch only for a LARGER epoch (seeded change C28-seed1) ignores the
+    epoch-0 manifest the bulk loader writes: it finds no segment where the engine finds one, so vacuum
+    would treat every CSR page of a bulk-loaded database as garbage -/
+theorem C28_counterexample_epoch0 :
+    (vacuumScan ⟨">", "==", 0⟩ [⟨0, [.manifest 0 [7] 3 4, .checkpoint 0 0 3 4]⟩]).roots = ([], 3, 4) ∧
+    (engineScan ScanOps.engineReal [⟨0, [.manifest 0 [7] 3 4, .checkpoint 0 0 3 4]⟩]).roots = ([7], 3, 4) := by
+  decide
+
+/-- non-vacuity of `wal_roots_agree`: a bulk load (epoch 0), a transaction, two compactions, a
+    checkpoint-on-close snapshot that re-emits the current manifest -/
+example : (engineScan ScanOps.engineReal
+    [⟨0, [.manifest 0 [7] 3 4, .checkpoint 0 0 3 4]⟩, ⟨1, [.other]⟩,
+     ⟨3, [.manifest 1 [20, 7] 21 22, .checkpoint 2 1 21 22]⟩, ⟨5, [.manifest 2 [30, 20, 7] 31 32, .checkpoint 4 2 31 32]⟩,
+     ⟨6, [.manifest 2 [30, 20, 7] 31 32, .checkpoint 5 2 31 32]⟩]).roots = ([30, 20, 7], 31, 32) := by decide
 
 end Nervus.Props.C28
